@@ -284,13 +284,20 @@ int32_t jls_buf_rd_str(struct jls_buf_s * self, const char ** value) {
     char ch;
     while (self->cur != self->end) {
         if (s->cur >= buf_end) {
-            ROE(strings_alloc(self));
-            // copy over partial.
-            while (str <= buf_end) {
-                *self->strings_tail->cur++ = *str++;
+            // block full: continue this string at the start of a new block
+            size_t partial = (size_t) (s->cur - str);
+            if (partial >= (sizeof(s->buffer) - 1)) {
+                JLS_LOGE("string too long");
+                *value = NULL;
+                return JLS_ERROR_TOO_BIG;  // cannot fit in a string block
             }
+            s->cur = str;  // release the partial copy
+            ROE(strings_alloc(self));
             s = self->strings_tail;
-            str = self->strings_tail->buffer;
+            buf_end = s->buffer + sizeof(s->buffer) - 1;
+            memcpy(s->buffer, str, partial);
+            s->cur = s->buffer + partial;
+            str = s->buffer;
         }
 
         ch = (char) *self->cur++;
